@@ -340,21 +340,38 @@ func (c *compiler) evalUpdateIndex(left, index, value interface{}) error {
 	rv := reflect.ValueOf(left)
 	switch rv.Kind() {
 	case reflect.Map:
-		rv.SetMapIndex(reflect.ValueOf(index), reflect.ValueOf(value))
+		mapType := rv.Type()
+		switch {
+		case rv.IsNil():
+			err = fmt.Errorf("assignment to entry in nil map (%T)", left)
+		case index == nil || !reflect.TypeOf(index).AssignableTo(mapType.Key()):
+			err = fmt.Errorf("cannot use %v (%T) as %s value in map index", index, index, mapType.Key())
+		case value != nil && !reflect.TypeOf(value).AssignableTo(mapType.Elem()):
+			err = fmt.Errorf("cannot use '%v' (%T) as %s value in assignment", value, value, mapType.Elem())
+		default:
+			rv.SetMapIndex(reflect.ValueOf(index), reflect.ValueOf(value))
+		}
 	case reflect.Array, reflect.Slice:
 		if i, ok := index.(int); ok {
-			if rv.Len()-1 < i {
+			if i < 0 || rv.Len()-1 < i {
 				err = fmt.Errorf("array index out of bounds, got index %d, while array size is %v", i, rv.Len())
 			} else {
 				elemType := reflect.TypeOf(left).Elem()
-				if elemType.Kind() != reflect.Interface {
-					t := reflect.ValueOf(value).Type()
+				newValue := reflect.ValueOf(value)
+				if value == nil {
+					// nil assigns the element type's zero value
+					newValue = reflect.Zero(elemType)
+				} else if elemType.Kind() != reflect.Interface {
+					t := newValue.Type()
 					if elemType != t {
 						err = fmt.Errorf("cannot use '%v' (untyped %s constant) as %s value in assignment", value, t, elemType)
 					}
 				}
+				if err == nil && !rv.Index(i).CanSet() {
+					err = fmt.Errorf("cannot assign to an element of %T", left)
+				}
 				if err == nil {
-					rv.Index(i).Set(reflect.ValueOf(value))
+					rv.Index(i).Set(newValue)
 				}
 			}
 		} else {
@@ -373,12 +390,20 @@ func (c *compiler) evalAccessIndex(left, index interface{}, node *ast.IndexExpre
 	rv := reflect.ValueOf(left)
 	switch rv.Kind() {
 	case reflect.Map:
+		if index == nil {
+			return nil, fmt.Errorf("cannot use nil as %s value in map index", reflect.TypeOf(left).Key())
+		}
+
 		mapKeyType := reflect.TypeOf(left).Key().Kind()
 		keyType := reflect.TypeOf(index).Kind()
 		if mapKeyType != reflect.Interface &&
 			keyType != mapKeyType {
 			err = fmt.Errorf("cannot use %v (%s constant) as %s value in map index", index, keyType.String(), mapKeyType.String())
 			return nil, err
+		}
+
+		if !reflect.TypeOf(index).AssignableTo(reflect.TypeOf(left).Key()) {
+			return nil, fmt.Errorf("cannot use %v (%T) as %s value in map index", index, index, reflect.TypeOf(left).Key())
 		}
 
 		val := rv.MapIndex(reflect.ValueOf(index))
@@ -393,7 +418,7 @@ func (c *compiler) evalAccessIndex(left, index interface{}, node *ast.IndexExpre
 		}
 	case reflect.Array, reflect.Slice:
 		if i, ok := index.(int); ok {
-			if rv.Len()-1 < i {
+			if i < 0 || rv.Len()-1 < i {
 				err = fmt.Errorf("array index out of bounds, got index %d, while array size is %d", index, rv.Len())
 			} else {
 
